@@ -26,9 +26,9 @@ CHECKS = {
     technique="Coq proof (size-cap decision and framing of the writer model) + differential correspondence on bytes captured from a live endpoint",
     design="§2 C05"),
  "C02": dict(
-    text="Partial. Theorems C02_request_framing_with_body / _without_body (what the client writes is request line+cookies+headers, User-Agent, Host, Content-Length = |body|, blank line, body) and C02_response_framing, for every method, path, query, cookies, headers and body. No theorem composes the serialiser model with the parser model end to end; the end-to-end statement is decided by the live correspondence check: requests built with the client builder are captured from the socket, compared with the model and parsed by the real server parser; responses from a live endpoint are read back. Uses C01 (segmentation independence) and the value round trips C16-C18.",
-    note="Closed under the global context. Trusted: harness/h_wire.cc (Q mode), tools/gen_tables.py.",
-    technique="Coq proof (framing of both serialisers) + differential correspondence on captured client requests and endpoint responses",
+    text="Partial. Client -> server is a theorem: C02_client_request_parses_back and C02_client_request_fields (for every method of the regenerated table, path, query pairs, cookies, application headers, Host value and body that need no escaping - the exact character conditions are the wf_* predicates - the request parser model run on what the client serialiser model writes ends Done exactly at the last byte with the same method, resource, version, query pairs, cookies, raw headers in order and body; first-occurrence-wins collections, C02_distinct_keys_keep_all for pairwise different keys). Server -> client is not composed end to end: C02_response_framing / C05 give the framing of what the writer emits, and the end-to-end statement for responses is decided by the live correspondence check (requests built with the client builder are captured from the socket, compared with the serialiser model and parsed by the real server parser; responses from a live endpoint are read back). Uses C01 (segmentation independence) and the value round trips C16-C18.",
+    note="Closed under the global context. The theorem is parametric in the typed-header parsers (typed_ok hypotheses for User-Agent and Host) and in Cookie::fromRaw. Trusted: harness/h_wire.cc (Q mode), tools/gen_tables.py.",
+    technique="Coq proof (serialiser model composed with the parser model: parse (write request) = request, by automaton scanning lemmas) + differential correspondence on captured client requests and endpoint responses",
     design="§2 C02"),
  "C06": dict(
     text="Partial. Theorems C06_stream_and_settle_once (for every queue of writes and every pattern of short writes and would-blocks over the successive send calls: received ++ pending = concatenation of the buffers in issue order; a promise settled at most once and never while queued) and C06_fulfilled_with_full_size, by induction over the drain loop against an arbitrary socket oracle. Tied to /repo by scripting the outcome of every send call of a live Transport through the PISTACHE_VERIF hook (all scripts up to 3-4 outcomes, loop thread and foreign thread) and comparing bytes, promise values and call counts. Residue: kernel buffering/real EAGAIN timing is the oracle; liveness is observed, not proved; sendfile buffers not exercised.",
